@@ -222,11 +222,10 @@ class ImmutableKnotVector(tuple):
         if len(nodes) == 0:
             return (self,)
         nodes = tuple(sorted(nodes | set(self.limits)))
-        vector = np.array(self)
 
         retorno = []
         for a, b in zip(nodes[:-1], nodes[1:]):
-            middle = list(vector[(a < vector) * (vector < b)])
+            middle = [knot for knot in self if a < knot and knot < b]
             newknotvect = (self.degree + 1) * [a] + middle + (self.degree + 1) * [b]
             newknotvect = ImmutableKnotVector(newknotvect)
             retorno.append(newknotvect)
